@@ -107,6 +107,10 @@ func TestC43(t *testing.T) {
 		e := ccfEncodeWith(ccfDefaultEnc, cadence.NewFunction(cadence.NewFunctionType(cadence.FunctionPurityImpure, nil, nil, cadence.VoidType)))
 		rec.ReportKnown("FC8", e.err == nil && ccfDecodeWith(ccfDefaultDec, e.bytes).err != nil)
 	}
+	fc17 := rec.Known("FC17")
+	if fc17 {
+		rec.ReportKnown("FC17", fc17StillFails())
+	}
 	eq := vgen.Eq{UnorderedDicts: true}
 	rapid.Check(t, func(rt *rapid.T) {
 		g := vgen.New(vgen.FromRapid(rt), vgen.Config{MaxDepth: 4})
@@ -122,6 +126,10 @@ func TestC43(t *testing.T) {
 		}
 		if known.fc6 && fc6Matches(v) {
 			rec.Excluded("FC6")
+			return
+		}
+		if fc17 && ccfCovariantContainer(v, v.Type()) {
+			rec.Excluded("FC17")
 			return
 		}
 		if known.fc8 && (in.Kinds["Function"] || in.InlineFunctionType) {
